@@ -18,7 +18,7 @@ from jsonpath.exceptions import JSONPointerError
 from monitors import pointers as PU
 from monitors import universe as U
 
-VALUES = [0, 1, True, False, None, "v", [], {}, [1], {"k": [1]}, 1.0]
+VALUES = [0, 1, True, False, None, "v", [], {}, [1], {"k": [1]}, 1.0, 100, 1e2, [1.0], {"k": [1.0]}]
 EXTRA_TOKENS = ["-", "0", "1", "2", "5", "01", "+1", "x", "", "1", "-1"]
 
 DOCS = [
@@ -45,6 +45,7 @@ def paths_for(doc):
             if isinstance(node, list):
                 out.append(PU.spell(parts) + "/" + str(len(node)))
                 out.append(PU.spell(parts) + "/" + str(len(node) + 1))
+                out.append(PU.spell(parts) + "/-" + str(len(node) + 3))  # a negative index that cannot be resolved
         else:
             out.append(PU.spell(parts) + "/0")
     seen, res = set(), []
@@ -166,6 +167,26 @@ def classify(ops, doc, got, want):
     return None
 
 
+TEST_EQUALITY = [
+    # (value in the document, value of the test operation, RFC 6902 4.6 says equal)
+    (1, 1.0, True), (1.0, 1, True), (100, 1e2, True), ([1], [1.0], True), ({"k": [1]}, {"k": [1.0]}, True), (0, -0.0, True), (1, 2, False), ("1", 1, False), ([1, 2], [2, 1], False),
+    ({"a": 1, "b": 2}, {"b": 2, "a": 1}, True), (None, None, True), (None, 0, False), ("", None, False), ([], {}, False), (1e2, 100.0, True), ([[1]], [[1.0]], True),
+]
+
+
+def check_test_equality(rec):
+    for have, value, equal in TEST_EQUALITY:
+        doc = {"x": copy.deepcopy(have), "l": [copy.deepcopy(have)]}
+        for path in ("/x", "/l/0"):
+            got = real_apply([{"op": "test", "path": path, "value": copy.deepcopy(value)}], doc)
+            want = ("ok", doc) if equal else ("error", "test")
+            if got[0] == want[0] and (got[0] == "error" and got[1] == want[1] or got[0] == "ok"):
+                rec.ok(("test-eq", repr(have), repr(value)))
+            else:
+                rec.fail(f"test-eq:{have!r}:{value!r}", f"test {path} {value!r} on {doc!r} -> {got!r}; RFC 6902 4.6: the values are {'equal' if equal else 'not equal'}",
+                         f"from jsonpath import JSONPatch\ntry:\n    print(JSONPatch([{{'op': 'test', 'path': {path!r}, 'value': {value!r}}}]).apply({doc!r}))\nexcept Exception as e:\n    print(type(e).__name__, e)\nsys.exit(2)")
+
+
 def check(rec, ops, doc):
     want = ref_apply(ops, doc)
     got = real_apply(ops, doc)
@@ -185,6 +206,7 @@ def run(tier, seed):
     rng = random.Random(seed + 4242)
     docs = list(DOCS) + [d for d in PU.docs(tier, seed) if isinstance(d, (list, dict))][: (6 if tier == "quick" else 40)]
     rec = U.Recorder(f"single operations: 6 ops x all candidate paths of {len(docs)} documents x {len(VALUES)} values (sampled); sequences of <= 4 operations: {2000 if tier == 'quick' else 60000} seeded")
+    check_test_equality(rec)
     for d in docs:
         paths = paths_for(d)
         for p in paths:
